@@ -69,6 +69,8 @@ structure Con where
   wres : Bool := false               -- WaitWithReleased: currResolved
   wnonce : Nat := 0                  -- WaitWithReleased: currNonce
   go : GoPc := .none                 -- WaitWithReleased: the once-only release goroutine
+  mainOwns : Bool := false           -- the call's own `ref.Release()` won the once-flag: it runs `removeRef`
+  goOwns : Bool := false             -- the release goroutine's `ref.Release()` won the once-flag
 deriving DecidableEq, Repr, Hashable
 
 structure CSt where
@@ -156,9 +158,14 @@ def canLook (c : Con) : Bool :=
 /-- the result is decided and the consumer calls `ref.Release()`: the swap of the once-flag happens
 here (the deferred / error-path `Release` follows the deciding action without any shared access in
 between); the `removeRef` section, if this call won the swap, is the base event `selfRelCS`. -/
+def flagOf (s : St) (a : Nat) : Bool :=
+  match s.th[a]? with
+  | some (.ref _ _ _ flag _ _) => flag
+  | _ => false
+
 def exitRel (s : CSt) (a : Nat) (c : Con) (v e : Nat) : Option CSt :=
   match step s.b (.selfRelSwap a) with
-  | some b' => some (setCon { s with b := b' } a { c with pc := .exitWait v e })
+  | some b' => some (setCon { s with b := b' } a { c with pc := .exitWait v e, mainOwns := !flagOf s.b a })
   | none => none
 
 /-- does the base event append a thread entry (so the consumer table stays aligned)? -/
@@ -306,7 +313,8 @@ def cstep (s : CSt) : CEv → Option CSt
     | some c =>
       match c.pc with
       | .exitWait v' e' =>
-        if v = v' ∧ e = e' ∧ !selfPending s.b a ∧ unlockedFor s.b (.thr a) then
+        -- `Release()` returns at once when it lost the swap, else after its own `removeRef` section
+        if v = v' ∧ e = e' ∧ (!c.mainOwns || (!selfPending s.b a && unlockedFor s.b (.self a))) then
           some (setCon s a { c with pc := .returned })
         else none
       | .exitKeep v' e' =>
@@ -328,14 +336,16 @@ def cstep (s : CSt) : CEv → Option CSt
     | some c =>
       if c.go = .rel then
         match step s.b (.selfRelSwap a) with
-        | some b' => some (setCon { s with b := b' } a { c with go := if c.op = .rwr true then .relWait else .done })
+        | some b' => some (setCon { s with b := b' } a
+            { c with go := if c.op = .rwr true then .relWait else .done, goOwns := !flagOf s.b a })
         | none => none
       else none
     | none => none
   | .goCb a =>
     match getCon s a with
     | some c =>
-      if c.go = .relWait ∧ !selfPending s.b a ∧ unlockedFor s.b (.thr a) then some (setCon s a { c with go := .done })
+      if c.go = .relWait ∧ (!c.goOwns || (!selfPending s.b a && unlockedFor s.b (.self a))) then
+        some (setCon s a { c with go := .done })
       else none
     | none => none
   | .probeCtx a m cc =>
